@@ -581,6 +581,7 @@ func (g *storeGen) round(fork bool) {
 				kvs = append(kvs, ptok(k)+"="+v)
 			}
 			g.emit("syncfrom %d %s", w, strings.Join(kvs, ","))
+			g.usedVersions[w] = true // no later child version / donor origin may repeat it (identical nodes would come back under dead keys)
 		}
 	}
 	if g.r.Intn(100) < 30 {
